@@ -245,12 +245,13 @@ PROPS = {
         'assumptions': [
             'WHICH declaration a name finds (ResolveScope::value_reference / definition / model_with_imported_item: local before imported, import matched by OID or name, independence of load order) is iterator/String code outside Verus; it is abstracted to the uninterpreted lookups lookup_value / lookup_definition (a Kani run over concrete module graphs does not terminate: measured 1500 s / 10 GB)',
             'Size::try_resolve and Size::reconsider_constraints ARE under contract (every bound is what the resolver yields, unresolvable => Err, result normalised like a literal SIZE); '
-            'TryResolve::try_resolve of Integer / BitString (Option::map(..).transpose() chains) and the recursive Type::try_resolve are not under contract',
+            'Integer::try_resolve IS under contract (a resolved bound is a value the resolver yields for it, absent stays absent, an unresolvable bound => Err, extension marker kept); '
+            'TryResolve::try_resolve of BitString and the recursive Type::try_resolve are not under contract',
             'the parser normalises a literal (0..MAX) to an unconstrained range but not a referenced one; this happens before resolution and is outside this check',
             'format!() diagnostics replaced by an opaque String (R19); error messages are not pinned',
         ],
         'trusted_base': COMMON_TRUSTED + ['stand-ins for ValueReference / Definition / Type<Unresolved> / ResolveScope (only the fields the four resolve() bodies touch)', 'external_body Clone for LiteralValue'],
-        'not_under_contract': ['ResolveScope::value_reference / definition / model_with_imported_item / try_resolve', 'MultiModuleResolver::try_resolve_all', 'TryResolve impls of Integer, BitString, Type'],
+        'not_under_contract': ['ResolveScope::value_reference / definition / model_with_imported_item / try_resolve', 'MultiModuleResolver::try_resolve_all', 'TryResolve impls of BitString, Type'],
         'explanation': 'The four real `impl Resolver<T> for ResolveScope` bodies (T = usize, i64, LiteralValue, Type) are verified for all names and values: a literal resolves to itself, a reference to exactly '
                        'the value the lookup finds, a missing declaration gives FailedToResolveReference/Type with that name, a non-integer where an integer is needed gives FailedToParseLiteral, and a negative '
                        'integer is never turned into a usize bound. Lemmas over these contracts state the property for the resolution step (reference resolves like the literal it names).',
